@@ -1,0 +1,34 @@
+//go:build verif
+
+// Contracts for the deductive verifier in /verif (comment-only file; compiled out
+// unless the build tag `verif` is set, and even then contains no executable code).
+package cache
+
+// ---- shared-cache transactions: lock discipline (property C11) ----
+// Lock levels (a blocking acquisition needs every held lock to be of a strictly lower level):
+// the only order compatible with Commit (t.mu, then manager.mu) and with the write path of
+// With (t.mu, then the cache lock).
+//@ locklevel Transaction.mu 10
+//@ locklevel sharedCacheElem.mu 20
+//@ locklevel Manager.mu 30
+
+//@ func (*Manager).checkAndPrune
+//@   property C11
+//@   locks 30
+//@   requires unheld(m.mu)
+//@   modifies m.sharedCaches
+//@   ensures unheld(m.mu)
+
+//@ func (*Manager).Release
+//@   property C11
+//@   requires unheld(m.mu)
+//@   ensures unheld(m.mu)
+//@   ensures !contains(m.sharedCaches, name)
+
+//@ func (*Transaction).With
+//@   property C11
+//@   requires t.manager != nil && unheld(t.mu) && unheld(t.manager.mu)
+//@   callback createFn ensures true
+//@   callback f ensures true
+//@   ensures unheld(t.mu) && unheld(t.manager.mu)
+//@   ensures result != nil ==> t.failed.v != 0
